@@ -28,7 +28,11 @@ func isRuntime(fn string) bool {
 	return strings.HasPrefix(fn, "runtime.") || strings.HasPrefix(fn, "sync.") || strings.HasPrefix(fn, "sync/atomic.") || strings.HasPrefix(fn, "internal/")
 }
 
-// ParseRaceReports extracts the reports from race-detector output.
+// ParseRaceReports extracts the reports from race-detector output. A report
+// counts as a framework report when ANY frame of either access stack is in the
+// framework package ("any report whose stacks include a framework frame
+// counts"); the site of each access is its innermost framework frame, or its
+// innermost non-runtime frame when the stack has no framework frame.
 func ParseRaceReports(out string) []RaceReport {
 	var reps []RaceReport
 	blocks := strings.Split(out, "WARNING: DATA RACE")
@@ -40,36 +44,51 @@ func ParseRaceReports(out string) []RaceReport {
 		fw := false
 		lines := strings.Split(b, "\n")
 		inAccess := false
-		found := false
+		firstNonRuntime, firstFramework := "", ""
+		flush := func() {
+			if !inAccess {
+				return
+			}
+			switch {
+			case firstFramework != "":
+				sites = append(sites, firstFramework)
+				fw = true
+			case firstNonRuntime != "":
+				sites = append(sites, firstNonRuntime)
+			default:
+				sites = append(sites, "?")
+			}
+			inAccess, firstNonRuntime, firstFramework = false, "", ""
+		}
 		for _, l := range lines {
 			t := strings.TrimSpace(l)
 			switch {
 			case strings.HasPrefix(t, "Write at"), strings.HasPrefix(t, "Read at"), strings.HasPrefix(t, "Previous write at"), strings.HasPrefix(t, "Previous read at"),
 				strings.HasPrefix(t, "Atomic"), strings.HasPrefix(t, "Previous atomic"):
-				inAccess, found = true, false
+				flush()
+				inAccess = true
 				continue
-			case strings.HasPrefix(t, "Goroutine "), t == "":
-				if t != "" {
-					inAccess = false
-				}
+			case strings.HasPrefix(t, "Goroutine "):
+				flush()
 				continue
 			}
-			if !inAccess || found {
+			if !inAccess {
 				continue
 			}
 			if m := frameRe.FindStringSubmatch(l); m != nil {
-				fn := m[1]
+				fn := closureRe.ReplaceAllString(m[1], ".func")
 				if isRuntime(fn) {
 					continue
 				}
-				fn = closureRe.ReplaceAllString(fn, ".func")
-				sites = append(sites, fn)
-				found = true
-				if strings.HasPrefix(fn, fwPrefix) {
-					fw = true
+				if firstNonRuntime == "" {
+					firstNonRuntime = fn
+				}
+				if firstFramework == "" && strings.HasPrefix(fn, fwPrefix) {
+					firstFramework = fn
 				}
 			}
 		}
+		flush()
 		var r RaceReport
 		for i := 0; i < 2 && i < len(sites); i++ {
 			r.Sites[i] = sites[i]
